@@ -27,14 +27,19 @@ type Ban struct {
 	Step   int
 }
 
-// EventObs is one block notification together with what the stores held at
-// the moment it was received (the sender is blocked while we read).
+// EventObs is one block notification together with what the stores held
+// right after it was received. The sender continues after the rendezvous, so
+// only facts that later steps of the same handler cannot undo are asserted:
+// a connected block's filter header is stored (it is only removed by a
+// rollback, which announces a disconnect), a disconnected header is no longer
+// stored at its height (it cannot come back within the step).
 type EventObs struct {
 	Connected    bool
 	Height       uint32
 	Header       wire.BlockHeader
 	NewTip       wire.BlockHeader // for disconnects: header of the tip afterwards
-	BlockTipAt   uint32           // block store tip height at receipt
+	BlockTipAt   uint32           // block store tip height read after receipt (informational)
+	StillStored  bool             // (disconnected) the block store still holds Header at Height after receipt
 	FilterTipAt  uint32           // filter store tip height at receipt
 	FilterHasIt  bool             // (connected) filter store already holds a header at Height
 	BlockAtMatch bool             // (connected) block store's header at Height equals Header
@@ -258,6 +263,9 @@ func (s *Session) observe(n blockntfns.BlockNtfn) EventObs {
 		}
 	case *blockntfns.Disconnected:
 		e.NewTip = t.ChainTip()
+		if h, err := s.Stores.Block.FetchHeaderByHeight(n.Height()); err == nil && *h == n.Header() {
+			e.StillStored = true
+		}
 	}
 	return e
 }
